@@ -128,6 +128,63 @@ def run(run: Run):
                 run.violation(f"create_pedersen_gens_with_extension_degree({d}) depends on the history of earlier requests {q}",
                               {"kind": "gens", "spec": {"op": "history", "degrees": q}})
                 break
+    # (b2) parameter objects of several shapes (large tables included) created, used and DROPPED in varying orders inside one process: a prove +
+    # verify task on an object must give what the same task gives in a fresh process that only ever created that one object
+    shapes = [(64, 4), (32, 8), (16, 16), (8, 32), (64, 8), (32, 16), (8, 2), (16, 1), (64, 1)]
+    names = "abcdefgh"
+    hists = []
+    for hi in range(6 if quick else 60):
+        steps, live, nxt = [], {}, 0
+        for _ in range(rng.randrange(8, 16)):
+            act = rng.choice(["new", "new", "task", "task", "drop"])
+            if act == "new" and nxt < len(names):
+                b, c = rng.choice(shapes[:6]) if rng.random() < 0.8 else rng.choice(shapes)
+                nm = names[nxt]
+                nxt += 1
+                live[nm] = (b, c)
+                steps.append(["new", nm, b, c, 1])
+            elif act == "task" and live:
+                nm = rng.choice(sorted(live))
+                steps.append(["task", nm, rng.randrange(4)])
+            elif act == "drop" and live:
+                nm = rng.choice(sorted(live))
+                live.pop(nm)
+                steps.append(["drop", nm])
+        # the pattern that defeats caches keyed by liveness: an early object dropped while two same-sized shapes stay alive, then a re-creation
+        if hi % 2 == 0:
+            (s1, s2, s3) = rng.sample(shapes[:4], 3)
+            steps += [["new", "x", s1[0], s1[1], 1], ["new", "y", s2[0], s2[1], 1], ["new", "z", s3[0], s3[1], 1], ["drop", "x"],
+                      ["new", "w", s2[0], s2[1], 1], ["task", "w", 1], ["task", "y", 1], ["task", "z", 2], ["drop", "y"], ["new", "v", s3[0], s3[1], 1], ["task", "v", 2]]
+            live.update({"x": s1, "y": s2, "z": s3, "w": s2, "v": s3})
+        hists.append(steps)
+    # the same pattern alone in a fresh process, for ordered triples of same-sized shapes
+    import itertools
+    triples = list(itertools.permutations(shapes[:4], 3)) + list(itertools.permutations([(64, 8), (32, 16), (16, 32)], 3))
+    rng.shuffle(triples)
+    for (s1, s2, s3) in triples[: (10 if quick else len(triples))]:
+        hists.append([["new", "x", s1[0], s1[1], 1], ["new", "y", s2[0], s2[1], 1], ["new", "z", s3[0], s3[1], 1], ["task", "y", 0], ["drop", "x"],
+                      ["new", "w", s2[0], s2[1], 1], ["task", "w", 1], ["task", "y", 1], ["task", "z", 2], ["drop", "y"], ["drop", "w"], ["new", "v", s3[0], s3[1], 1], ["task", "v", 2],
+                      ["new", "u", s2[0], s2[1], 1], ["task", "u", 3]])
+    shape_of = lambda steps: {st[1]: (st[2], st[3]) for st in steps if st[0] == "new"}
+    wanted = sorted({(shape_of(h)[st[1]], st[2]) for h in hists for st in h if st[0] == "task"})
+    base = run_harness(["gens"], [{"op": "churn", "steps": [["new", "a", b, c, 1], ["task", "a", sd]]} for ((b, c), sd) in wanted], jobs=len(wanted))
+    baseline = {k: r["steps"][1] for k, r in zip(wanted, base)}
+    for k, r in baseline.items():
+        if r.get("ok") is not True:
+            run.violation(f"prove + verify on a fresh parameter object {k[0]} failed in a fresh process", {"kind": "gens", "spec": {"op": "churn", "steps": [["new", "a", k[0][0], k[0][1], 1], ["task", "a", k[1]]]}})
+    for h, r in zip(hists, run_harness(["gens"], [{"op": "churn", "steps": h} for h in hists], jobs=len(hists))):
+        sh = shape_of(h)
+        run.count(["churn", len(h), len(sh)], {"check": "parameter objects created / used / dropped in one process vs fresh-process baseline", "steps": len(h)})
+        for st, got in zip(h, r["steps"]):
+            if st[0] != "task":
+                continue
+            run.bump("tasks under object churn")
+            want = baseline[(sh[st[1]], st[2])]
+            if got != want:
+                run.violation(f"prove/verify on a ({sh[st[1]][0]}, {sh[st[1]][1]}) parameter object gives a different result after other parameter objects were created and dropped "
+                              f"in the process ({'panic' if got.get('panic') else 'verified=' + str(got.get('ok'))}; alone: verified={want.get('ok')})",
+                              {"kind": "gens", "spec": {"op": "churn", "steps": h}, "step": st})
+                break
     # (c) 16 threads sharing parameter objects and the cached tables
     nproc = 3 if quick else 30
     thr = run_harness(["gens"], [{"op": "threads", "threads": 16, "reps": 2 if quick else 6, "bits": rng.choice([8, 16]), "degrees": rng.sample([1, 2, 3, 4, 5, 6], 4)} for _ in range(nproc)], jobs=nproc)
@@ -148,7 +205,7 @@ def run(run: Run):
     return run.finish(
         "proof",
         "call histories (each session alone in a fresh process vs repeated / shuffled / reversed inside one process, both back ends), generator request sequences in fresh processes "
-        "(result must not depend on earlier requests), 16 threads sharing parameter objects running prove / verify / recover / generator construction against a single-threaded baseline, "
+        "(result must not depend on earlier requests), parameter objects of several shapes created / used / dropped in varying orders in one process vs a fresh-process baseline, 16 threads sharing parameter objects running prove / verify / recover / generator construction against a single-threaded baseline, "
         "and fresh processes racing the first use of the cached tables; distinct by (kind, session or request sequence, variant)",
         ["schedules are whatever the OS produces on 16 cores; the logical once-cell model covers all schedules"],
         TRUSTED)
